@@ -30,6 +30,7 @@ import (
 	"github.com/cenkalti/rain/v2/internal/handshaker/outgoinghandshaker"
 	"github.com/cenkalti/rain/v2/internal/mse"
 	"github.com/cenkalti/rain/v2/internal/peer"
+	"github.com/cenkalti/rain/v2/internal/peerprotocol"
 	"github.com/cenkalti/rain/v2/internal/peersource"
 	"github.com/cenkalti/rain/v2/internal/piecewriter"
 	"github.com/cenkalti/rain/v2/internal/storage"
@@ -48,6 +49,7 @@ type VFile struct {
 	B    []byte
 	log  *[]VWrite
 	name string
+	sto  *VStorage
 }
 
 type VWrite struct {
@@ -74,15 +76,20 @@ func (f *VFile) WriteAt(p []byte, off int64) (int, error) {
 	if off+int64(len(p)) > int64(len(f.B)) {
 		return 0, io.ErrShortWrite
 	}
+	if f.sto != nil && f.sto.FailNext {
+		f.sto.FailNext = false
+		return 0, errors.New("injected write error")
+	}
 	*f.log = append(*f.log, VWrite{Name: f.name, Off: off, Data: append([]byte{}, p...)})
 	return copy(f.B[off:], p), nil
 }
 func (f *VFile) Close() error { return nil }
 
 type VStorage struct {
-	mu     sync.Mutex
-	Files  map[string]*VFile
-	Writes []VWrite
+	mu       sync.Mutex
+	Files    map[string]*VFile
+	Writes   []VWrite
+	FailNext bool // the next WriteAt fails (once), like a full or failing disk
 }
 
 func NewVStorage() *VStorage { return &VStorage{Files: map[string]*VFile{}} }
@@ -98,17 +105,24 @@ func (s *VStorage) Open(name string, size int64) (storage.File, bool, error) {
 		}
 		return f, true, nil
 	}
-	f := &VFile{mu: &s.mu, B: make([]byte, size), log: &s.Writes, name: name}
+	f := &VFile{mu: &s.mu, B: make([]byte, size), log: &s.Writes, name: name, sto: s}
 	s.Files[name] = f
 	return f, false, nil
 }
 func (s *VStorage) RootDir() string { return "/vstorage" }
 
+// ArmWriteError makes the next WriteAt fail.
+func (s *VStorage) ArmWriteError() {
+	s.mu.Lock()
+	s.FailNext = true
+	s.mu.Unlock()
+}
+
 // Preload sets the content of a file before the torrent is started.
 func (s *VStorage) Preload(name string, b []byte) {
 	s.mu.Lock()
 	defer s.mu.Unlock()
-	s.Files[name] = &VFile{mu: &s.mu, B: append([]byte{}, b...), log: &s.Writes, name: name}
+	s.Files[name] = &VFile{mu: &s.mu, B: append([]byte{}, b...), log: &s.Writes, name: name, sto: s}
 }
 
 type vProvider struct{ s *VStorage }
@@ -125,9 +139,11 @@ type VFrame struct {
 type VPeer struct {
 	Conn   net.Conn // harness side
 	Pe     *peer.Peer
-	mu     sync.Mutex
-	frames []VFrame
-	closed bool
+	mu      sync.Mutex
+	frames  []VFrame
+	closed  bool
+	markers int
+	Gone    bool // the harness closed its end
 }
 
 func (p *VPeer) readLoop() {
@@ -154,8 +170,40 @@ func (p *VPeer) readLoop() {
 			return
 		}
 		p.mu.Lock()
-		p.frames = append(p.frames, VFrame{ID: int(b[0]), Payload: b[1:]})
+		if b[0] == 9 && len(b) == 3 && b[1] == 0xBE && b[2] == 0xEF {
+			p.markers++ // barrier marker injected by VLoop.Barrier
+		} else {
+			p.frames = append(p.frames, VFrame{ID: int(b[0]), Payload: b[1:]})
+		}
 		p.mu.Unlock()
+	}
+}
+
+// Barrier makes sure every frame the client has queued for its open peers so far has reached the
+// scripted peers: a marker message is pushed through each peer's own writer queue (FIFO) and
+// awaited at the receiving end.
+func (v *VLoop) Barrier() {
+	for _, p := range v.Peers {
+		if p.Gone || p.Pe.Closed {
+			continue
+		}
+		p.mu.Lock()
+		n0, cl := p.markers, p.closed
+		p.mu.Unlock()
+		if cl {
+			continue
+		}
+		p.Pe.SendMessage(peerprotocol.PortMessage{Port: 0xBEEF})
+		deadline := time.Now().Add(time.Second)
+		for time.Now().Before(deadline) {
+			p.mu.Lock()
+			ok := p.markers > n0 || p.closed
+			p.mu.Unlock()
+			if ok {
+				break
+			}
+			time.Sleep(50 * time.Microsecond)
+		}
 	}
 }
 
@@ -189,6 +237,8 @@ type VLoop struct {
 	dir   string
 	ln    net.Listener
 	Crash string
+	Truth []byte // ground-truth content (concatenated files) for judging received blocks
+	PL    int64
 }
 
 type VLoopOpts struct {
@@ -407,6 +457,145 @@ func (v *VLoop) Pump(d time.Duration) (ev int) {
 	}
 }
 
+// VEvent describes one handled event (what the loop received, before the handler ran).
+type VEvent struct {
+	Code   int
+	Peer   int // index into v.Peers, -1 unknown
+	MsgID  int // wire id of a peer message, -1 other
+	Index  uint32
+	Begin  uint32
+	Len    uint32
+	Good   bool   // piece data equals the ground truth bytes of that range
+	Bits   []bool // bitfield message
+	BadLen bool   // bitfield of the wrong length
+	HashOK bool   // write result
+	WErr   bool
+}
+
+// Classes of events PumpEx may take.
+const (
+	ClsWrite = 1 << iota
+	ClsPiece
+	ClsMsg
+	ClsDisc
+	ClsSnub
+	ClsRam
+	ClsOther
+	ClsAll = ClsWrite | ClsPiece | ClsMsg | ClsDisc | ClsSnub | ClsRam | ClsOther
+)
+
+// PumpEx handles at most one pending event of the allowed classes and reports what it was.
+func (v *VLoop) PumpEx(d time.Duration, cls int) (e VEvent) {
+	t := v.T
+	e.Peer, e.MsgID = -1, -1
+	timer := time.NewTimer(d)
+	defer timer.Stop()
+	var writeC chan *piecewriter.PieceWriter
+	var pieceC chan peer.PieceMessage
+	var msgC chan peer.Message
+	var discC, snubC, ramC chan *peer.Peer
+	if cls&ClsWrite != 0 {
+		writeC = t.pieceWriterResultC
+	}
+	if cls&ClsPiece != 0 {
+		pieceC = t.pieceMessagesC.ReceiveC()
+	}
+	if cls&ClsMsg != 0 {
+		msgC = t.messages
+	}
+	if cls&ClsDisc != 0 {
+		discC = t.peerDisconnectedC
+	}
+	if cls&ClsSnub != 0 {
+		snubC = t.peerSnubbedC
+	}
+	if cls&ClsRam != 0 {
+		ramC = t.ramNotifyC
+	}
+	select {
+	case pw := <-writeC:
+		e.Code, e.Index, e.HashOK, e.WErr = EvWriteDone, pw.Piece.Index, pw.HashOK, pw.Error != nil
+		if pe, ok := pw.Source.(*peer.Peer); ok {
+			e.Peer = v.peerIndex(pe)
+		}
+		v.guard(func() { t.handlePieceWriteDone(pw) })
+	case pm := <-pieceC:
+		e.Code, e.Peer, e.MsgID = EvPieceMsg, v.peerIndex(pm.Peer), 7
+		e.Index, e.Begin, e.Len = pm.Piece.Index, pm.Piece.Begin, uint32(len(pm.Piece.Buffer.Data))
+		lo := int64(pm.Piece.Index)*v.PL + int64(pm.Piece.Begin)
+		hi := lo + int64(e.Len)
+		e.Good = hi <= int64(len(v.Truth)) && bytes.Equal(pm.Piece.Buffer.Data, v.Truth[lo:hi])
+		v.guard(func() { t.handlePieceMessage(pm) })
+	case pm := <-msgC:
+		e.Code, e.Peer = EvPeerMsg, v.peerIndex(pm.Peer)
+		switch m := pm.Message.(type) {
+		case peerprotocol.ChokeMessage:
+			e.MsgID = 0
+		case peerprotocol.UnchokeMessage:
+			e.MsgID = 1
+		case peerprotocol.InterestedMessage:
+			e.MsgID = 2
+		case peerprotocol.NotInterestedMessage:
+			e.MsgID = 3
+		case peerprotocol.HaveMessage:
+			e.MsgID, e.Index = 4, m.Index
+		case peerprotocol.BitfieldMessage:
+			e.MsgID = 5
+			np := len(t.pieces)
+			e.BadLen = len(m.Data) != (np+7)/8
+			for i := 0; i < np && i/8 < len(m.Data); i++ {
+				e.Bits = append(e.Bits, m.Data[i/8]&(0x80>>uint(i%8)) != 0)
+			}
+		case peerprotocol.RequestMessage:
+			e.MsgID, e.Index, e.Begin, e.Len = 6, m.Index, m.Begin, m.Length
+		case peerprotocol.CancelMessage:
+			e.MsgID, e.Index, e.Begin, e.Len = 8, m.Index, m.Begin, m.Length
+		case peerprotocol.HaveAllMessage:
+			e.MsgID = 14
+		case peerprotocol.HaveNoneMessage:
+			e.MsgID = 15
+		case peerprotocol.RejectMessage:
+			e.MsgID, e.Index, e.Begin, e.Len = 16, m.Index, m.Begin, m.Length
+		case peerprotocol.AllowedFastMessage:
+			e.MsgID, e.Index = 17, m.Index
+		case peerprotocol.ExtensionHandshakeMessage:
+			e.MsgID = 20
+			if m.RequestQueue > 0 && m.RequestQueue < 1<<30 {
+				e.Index = uint32(m.RequestQueue)
+			}
+		}
+		v.guard(func() { t.handlePeerMessage(pm) })
+	case pe := <-discC:
+		e.Code, e.Peer = EvDisconnected, v.peerIndex(pe)
+		v.guard(func() { t.closePeer(pe) })
+	case pe := <-snubC:
+		e.Code, e.Peer = EvSnubbed, v.peerIndex(pe)
+		v.guard(func() { t.handlePeerSnubbed(pe) })
+	case pe := <-ramC:
+		e.Code, e.Peer = EvRamNotify, v.peerIndex(pe)
+		v.guard(func() { t.startSinglePieceDownloader(pe) })
+	case <-timer.C:
+		e.Code = EvNone
+	}
+	return
+}
+
+// SnubEx delivers a snub-timer event for the peer and reports it like PumpEx.
+func (v *VLoop) SnubEx(p *VPeer) VEvent {
+	v.Snub(p)
+	return VEvent{Code: EvSnubbed, Peer: v.peerIndex(p.Pe), MsgID: -1}
+}
+
+// WriteInFlight tells whether a piece write has been started and its result not yet handled.
+func (v *VLoop) WriteInFlight() bool {
+	for i := range v.T.pieces {
+		if v.T.pieces[i].Writing {
+			return true
+		}
+	}
+	return false
+}
+
 // Settle pumps until no event arrives for quiet; returns the events handled.
 func (v *VLoop) Settle(quiet time.Duration) (evs []int) {
 	for i := 0; i < 100000; i++ {
@@ -509,6 +698,8 @@ type VSnapshot struct {
 	NumPeers    int
 	Completed   bool
 	Downloaders int
+	Suspended   bool
+	Pending     []int // per peer: pending request count of its downloader (-1 none)
 }
 
 func (v *VLoop) peerIndex(pe *peer.Peer) int {
@@ -542,27 +733,33 @@ func (v *VLoop) Snapshot() VSnapshot {
 			ps.SentAllowedFast = append(ps.SentAllowedFast, int(pi.Index))
 		}
 		sort.Ints(ps.SentAllowedFast)
+		pend := -1
 		if pd, ok := t.pieceDownloaders[pe]; ok {
 			ps.DownloadPiece = int(pd.Piece.Index)
 			ps.DownloadAF = pd.AllowedFast
+			pend = pd.PendingLen()
 		}
+		s.Pending = append(s.Pending, pend)
 		s.Peers = append(s.Peers, ps)
 	}
 	if t.piecePicker != nil {
 		s.Available = int(t.piecePicker.Available())
-		for i := range t.pieces {
-			var l []int
+	}
+	for i := range t.pieces {
+		var l []int
+		if t.piecePicker != nil {
 			for _, pe := range t.piecePicker.RequestedPeers(uint32(i)) {
 				l = append(l, v.peerIndex(pe))
 			}
-			sort.Ints(l)
-			s.Requested = append(s.Requested, l)
 		}
+		sort.Ints(l)
+		s.Requested = append(s.Requested, l)
 	}
 	s.Banned = len(t.bannedPeerIPs)
 	s.NumPeers = len(t.peers)
 	s.Completed = t.completed
 	s.Downloaders = len(t.pieceDownloaders)
+	s.Suspended = t.pieceMessagesC.ReceiveC() == nil
 	if t.session.ram != nil {
 		s.RamObjects = t.session.ram.Stats().AllocatedObjects
 	}
